@@ -146,14 +146,18 @@ static void m_copy_filled(int a, int b)
 	for (int i = 0; i < A->R; i++) for (int j = 0; j < A->C; j++) if (A->M[i][j]) B->M[ir[i]][ic[j]] = 1;
 	g_ops++;
 }
-static void m_roundtrip(int a, int b)
-{	/* sparse -> dense -> sparse; needs dims(b) >= dims(a) */
+static void m_roundtrip(int a, int b, rng_t *r)
+{	/* sparse -> dense -> sparse; needs dims(b) >= dims(a). The dense intermediate is anywhere between the two sizes and, every
+	 * other time, already holds bits (a reused matrix): the conversion must leave it equal to the source padded with zeros */
 	smat_t *A = &g_m[a], *B = &g_m[b]; g_lastop = "sparse_to_dense_to_sparse";
+	int DR = A->R + (int)rng_below(r, (uint32_t)(B->R - A->R + 1)), DC = A->C + (int)rng_below(r, (uint32_t)(B->C - A->C + 1));
+	int dirty = (int)rng_below(r, 2);
 	LIB_ENTER();
-	of_mod2dense *d = of_mod2dense_allocate((UINT32)A->R, (UINT32)A->C);
+	of_mod2dense *d = of_mod2dense_allocate((UINT32)DR, (UINT32)DC);
+	if (dirty) for (int i = 0; i < DR; i++) for (int j = 0; j < DC; j++) if (rng_below(r, 2)) of_mod2dense_set(d, (UINT32)i, (UINT32)j, 1);
 	of_mod2sparse_to_dense(A->m, d);
 	int bad = 0;
-	for (int i = 0; i < A->R && !bad; i++) for (int j = 0; j < A->C; j++) if ((of_mod2dense_get(d, (UINT32)i, (UINT32)j) ? 1 : 0) != A->M[i][j]) { bad = 1; break; }
+	for (int i = 0; i < DR && !bad; i++) for (int j = 0; j < DC; j++) if ((of_mod2dense_get(d, (UINT32)i, (UINT32)j) ? 1 : 0) != ((i < A->R && j < A->C) ? A->M[i][j] : 0)) { bad = 1; break; }
 	of_mod2dense_to_sparse(d, B->m);
 	of_mod2dense_free(d);
 	LIB_LEAVE();
@@ -334,7 +338,7 @@ static void random_sequence(rng_t *r, int len, int maxdim, int dense_fill)
 				    if (g_viol_total == viol0) { check(&g_m[b], 0); m_copyrows(0, b, r, 1); } k = b; }
 		else if (op < 88) { int b = 1 + (int)rng_below(r, 2); int Rb = g_m[b].R, Cb = g_m[b].C; m_free(b); m_alloc(b, Rb, Cb); m_copycols(0, b, r, 1); k = b; }
 		else if (op < 92) { int b = 1 + (int)rng_below(r, 2); m_copy_filled(0, b); k = b; }
-		else if (op < 96) { int b = 1 + (int)rng_below(r, 2); m_roundtrip(0, b); k = b; }
+		else if (op < 96) { int b = 1 + (int)rng_below(r, 2); m_roundtrip(0, b, r); k = b; }
 		else { int Rk = s->R, Ck = s->C; m_free(k); m_alloc(k, Rk, Ck); }
 		/* long sequences: the O(size) walk runs every 16th step (every step for short ones), the full find() sweep more rarely */
 		if (g_viol_total == viol0 && (len <= 1000 || (step & 15) == 0 || step == len - 1)) check(&g_m[k], (step % (len > 1000 ? 400 : 7)) == 0 || step == len - 1);
